@@ -307,7 +307,7 @@ func c01Matrix(c *mon.Ctx, idx int) {
 // struct types in ONE process, then the first ones again: process-wide caches
 // that fill up, evict or collide must not change any outcome.
 func c01Accumulation(c *mon.Ctx) {
-	n := tierN(c.Tier, 3000, 20000)
+	n := tierN(c.Tier, 11000, 30000) // more than 4096 distinct patterns also in the quick tier
 	type item struct {
 		text  string
 		datum interface{}
